@@ -553,6 +553,14 @@ def _measured(ctx, which, case, sandbox, report, files, inputs, n_rt_before):
             sandbox._current_stdout.clear()
         else:
             # probe: the next execution captures normally
+            if kind == 'timeout':
+                # (what an interrupted thread that is still unwinding does to the NEXT execution is C14's subject, under controlled
+                # schedules; here the probe only asks whether the state left behind is usable, so it waits for that thread)
+                import threading
+                end = time.time() + 3
+                while time.time() < end and any(t is not threading.main_thread() and t.is_alive() and type(t).__name__ == 'InterruptableThread'
+                                                for t in threading.enumerate()):
+                    time.sleep(0.01)
             try:
                 sbx.clear_output()
                 sbx.run(code='print("probe-text")')
